@@ -135,7 +135,8 @@ Lemma search_loop_S f h v slm vol parent pi slcount saved :
             else if check_permission m OpenLookup (v_user v)
                  then search_loop f h v slm vol c pi1 slcount saved
                  else ret EPermDenied
-        | Some (NFile _ _ _ _) => if last then ret EFileExists else ret ENotADirectory
+        | Some (NFile _ _ _ _) =>
+            if last then ret EFileExists else ret (match v_os v with Windows => ENoSuchDir | Linux => ENotADirectory end)
         | Some (NSym link _) =>
             let slcount' := S slcount in
             if last && slmode_eqb slm SlLstat then ret EFileExists
@@ -357,26 +358,30 @@ Section Rewalk.
     cs = pre ++ x -> Forall comp_ok cs -> before cs pre pi -> dwalk h u d0 x = Some d -> kperm h d0 1 u = true ->
     let r := search_loop (S (length x + f)) h v slm vol d0 pi slcount saved in
     sr_err r = EFileExists /\ sr_child r = Some d /\ (exists p, sr_parent r = Some p) /\
-    (saved = None -> (x = [] -> pre = []) -> pi_is_last (sr_pi r) = true).
+    (saved = None -> (x = [] -> pre = []) -> pi_is_last (sr_pi r) = true) /\
+    (saved = None -> pi_path (sr_pi r) = abs_path cs).
   Proof.
     induction x as [|n x IH]; intros d0 d pre cs f slm vol pi slcount saved Hcs Hok Hb Hw Hp0.
     - injection Hw as <-. rewrite app_nil_r in Hcs. subst cs. cbn [length plus]. cbv zeta.
       rewrite (search_loop_end h v Hos f slm vol d0 pi slcount saved pre Hok Hb). cbn [sr_err sr_child sr_parent sr_pi].
-      split; [reflexivity|]. split; [reflexivity|]. split; [eauto|]. intros -> Hpre. rewrite (Hpre eq_refl). reflexivity.
+      split; [reflexivity|]. split; [reflexivity|]. split; [eauto|].
+      split; [intros -> Hpre; rewrite (Hpre eq_refl); reflexivity|intros ->; reflexivity].
     - apply dwalk_cons_inv in Hw as (c & H1 & H2 & H3 & H4).
       destruct (node_is_dir_get _ _ H2) as (ch & m & Hg). subst cs.
       cbn [length plus]. cbv zeta.
       rewrite (search_loop_on h v Hos (S (length x + f)) slm vol d0 pi slcount saved pre x n Hok Hb). cbv zeta.
       rewrite (root_check_pass h v vol d0 Hp0), H1, Hg. destruct x as [|n2 x].
       + cbn [is_nil]. injection H4 as <-. cbn [sr_err sr_child sr_parent sr_pi].
-        split; [reflexivity|]. split; [reflexivity|]. split; [eauto|]. intros -> _. cbn [out_pi].
+        split; [reflexivity|]. split; [reflexivity|]. split; [eauto|].
+        split; [|intros ->; reflexivity]. intros -> _. cbn [out_pi].
         destruct (on_comp_views pre [] n) as (_ & _ & _ & _ & _ & Vl). exact Vl.
       + cbn [is_nil]. rewrite <- (kperm_dir _ _ _ _ u Hg), H3.
         destruct (IH c d (pre ++ [n]) (pre ++ n :: n2 :: x) f slm vol (on_comp (pre ++ n :: n2 :: x) pre n) slcount saved)
-          as (I1 & I2 & I3 & I4); auto.
+          as (I1 & I2 & I3 & I4 & I5); auto.
         * rewrite <- app_assoc. reflexivity.
         * apply on_comp_before.
-        * split; [exact I1|]. split; [exact I2|]. split; [exact I3|]. intros Hs _. apply I4; [exact Hs|discriminate].
+        * split; [exact I1|]. split; [exact I2|]. split; [exact I3|].
+          split; [intros Hs _; apply I4; [exact Hs|discriminate]|exact I5].
   Qed.
 
   (* specification: the same from the kernel's side *)
@@ -432,6 +437,33 @@ Definition walk_rel (h : heap) (u : user) (root : nat) (precise : bool) (r : sre
   | WParent _ _ _ _ => False
   end.
 
+
+Definition walk_relx (h : heap) (u : user) (root : nat) (precise : bool) (r : sres) (k : wres) : Prop :=
+  match k with
+  | WNode par kind name n =>
+      sr_err r = EFileExists /\ sr_child r = Some n /\ get h n <> None /\ (exists p, sr_parent r = Some p) /\
+      (precise = true -> pi_is_last (sr_pi r) = true) /\
+      (kind = LNorm -> sr_parent r = Some par /\ (precise = true -> at_name h u root par name (sr_pi r))) /\
+      (* otherwise the walk ended on a directory (".", "..", "/" last): the cursor's path is a directory walk to it *)
+      (precise = true -> kind <> LNorm ->
+       exists wp, Forall good_comp wp /\ dwalk h u root wp = Some n /\ pi_path (sr_pi r) = abs_path wp)
+  | WNeg par name _ =>
+      sr_err r = ENoSuchFile /\ sr_child r = None /\ sr_parent r = Some par /\
+      (precise = true -> at_name h u root par name (sr_pi r))
+  | WErr e =>
+      walk_err_rel (sr_err r) e /\ (precise = true -> sr_err r = ENoSuchDir -> pi_is_last (sr_pi r) = false)
+  | WParent _ _ _ _ => False
+  end.
+
+
+(* [walk_relx]: [walk_rel] plus, when the walk ended on a directory through ".", ".." or "/", the path of the cursor *)
+Lemma walk_relx_rel (h : heap) (u : user) (root : nat) (precise : bool) (r : sres) (k : wres) :
+  walk_relx h u root precise r k -> walk_rel h u root precise r k.
+Proof.
+  destruct k as [par kind name n|par name md|a b c d|e]; cbn [walk_relx walk_rel]; auto.
+  intros (H1 & H2 & H3 & H4 & H5 & H6 & _). auto 10.
+Qed.
+
 Definition precise_of (slm : slmode) : bool := negb (slmode_eqb slm SlStat).
 
 (* ---- the symlink-free bridge ------------------------------------------------------- *)
@@ -468,7 +500,7 @@ Section Bridge.
     link_free h parent todo = true ->
     dwalk h u root done = Some parent -> node_is_dir h parent = true -> kperm h parent 1 u = true ->
     length todo <= fi -> length todo <= fk -> (precise_of slm = true -> saved = None) ->
-    walk_rel h u root (precise_of slm)
+    walk_relx h u root (precise_of slm)
       (search_loop fi h v slm vol parent pi slcount saved)
       (kwalk fk h u kroot false follow parent todo cnt false).
   Proof.
@@ -499,7 +531,7 @@ Section Bridge.
           + intros Hpr _. rewrite (Hsv Hpr). cbn [out_pi]. apply on_comp_last_false. discriminate. }
     destruct (get h n) as [[ch m|dt k i m|link m]|] eqn:Hgn; [| |discriminate|].
     - destruct todo as [|c2 todo]; cbn [is_nil].
-      + cbn. repeat split; eauto; unfold get in *; congruence.
+      + cbn. repeat split; eauto; try (unfold get in *; congruence); intros _ Hk; exfalso; apply Hk; reflexivity.
       + assert (Hpn : kperm h n 1 u = check_permission m OpenLookup u) by (apply (kperm_dir _ _ _ _ u Hgn)).
         destruct (check_permission m OpenLookup u) eqn:Hcp.
         * apply (IH (done ++ [c]) n); auto; try lia; try discriminate.
@@ -511,7 +543,7 @@ Section Bridge.
           rewrite kwalk_S. unfold node_is_dir at 1. rewrite Hgn, Hpn. cbn [negb]. cbn.
           split; [|intros _ [=]]. right. split; [auto|reflexivity].
     - destruct todo as [|c2 todo]; cbn [is_nil].
-      + cbn. repeat split; eauto; unfold get in *; congruence.
+      + cbn. repeat split; eauto; try (unfold get in *; congruence); intros _ Hk; exfalso; apply Hk; reflexivity.
       + cbn. split; [|intros _ [=]]. right. split; [auto|reflexivity].
     - cbn. split; [|intros _ [=]]. left. auto.
   Qed.
@@ -638,18 +670,19 @@ Section BridgeTop.
     - rewrite kwalk_S, Hd, Hp. reflexivity.
   Qed.
 
-  Theorem bridge_nolink (cs : list str) (slm : slmode) (follow md : bool) (fi fk : nat) (kroot : nat) :
+  Theorem bridge_nolink_x (cs : list str) (slm : slmode) (follow md : bool) (fi fk : nat) (kroot : nat) :
     Forall good_comp cs -> link_free h root cs = true -> node_is_dir h root = true ->
     length cs < fi -> length cs < fk -> (md = false \/ cs = []) ->
-    walk_rel h u root (precise_of slm)
+    walk_relx h u root (precise_of slm)
       (search_loop fi h v slm root root (pi_new Linux (abs_path cs)) 0 None)
       (kwalk fk h u kroot false follow root cs 0 md).
   Proof.
     intros Hg Hlf Hd Hfi Hfk Hmd. destruct cs as [|c cs].
     - destruct fi as [|fi]; [cbn [length] in Hfi; lia|]. destruct fk as [|fk]; [cbn [length] in Hfk; lia|].
       rewrite (search_loop_end h v Hos fi slm root root _ 0 None [] (Forall_nil _) (pi_new_before [])).
-      rewrite kwalk_S. cbn [walk_rel sr_err sr_child sr_parent]. split; [reflexivity|]. split; [reflexivity|].
-      split; [apply node_is_dir_valid; exact Hd|]. split; [eauto|]. split; [reflexivity|]. intros [=].
+      rewrite kwalk_S. cbn [walk_relx sr_err sr_child sr_parent]. split; [reflexivity|]. split; [reflexivity|].
+      split; [apply node_is_dir_valid; exact Hd|]. split; [eauto|]. split; [reflexivity|]. split; [intros [=]|].
+      intros _ _. exists []. split; [constructor|]. split; reflexivity.
     - destruct Hmd as [->|Hmd]; [|discriminate]. destruct (kperm h root 1 u) eqn:Hp.
       + apply (bridge_nolink_at h v Hos (c :: cs) [] root); auto; try lia; try discriminate.
         apply pi_new_before.
@@ -662,6 +695,20 @@ Section BridgeTop.
 End BridgeTop.
 
 (* the bridge at the level of the two entry points *)
+Theorem bridge_nolink_lookup_x (s : fsys) (sv : sview) (cs : list str) (slm : slmode) (follow : bool) :
+  let v := sv_view sv in
+  v_os v = Linux -> Forall good_comp cs -> link_free (f_heap s) (v_root v) cs = true ->
+  node_is_dir (f_heap s) (v_root v) = true ->
+  length cs < SEARCH_FUEL ->
+  walk_relx (f_heap s) (v_user v) (v_root v) (precise_of slm)
+    (search_node s v (abs_path cs) slm) (klookup s sv false follow (abs_path cs)).
+Proof.
+  intros v Hos Hg Hlf Hd Hlen. rewrite (search_node_abs_path s v cs slm Hos Hg), (klookup_abs_path s sv false follow cs Hg).
+  apply bridge_nolink_x; auto.
+  - unfold SEARCH_FUEL, WALK_FUEL in *. lia.
+  - destruct cs; [right; reflexivity|left; reflexivity].
+Qed.
+
 Theorem bridge_nolink_lookup (s : fsys) (sv : sview) (cs : list str) (slm : slmode) (follow : bool) :
   let v := sv_view sv in
   v_os v = Linux -> Forall good_comp cs -> link_free (f_heap s) (v_root v) cs = true ->
@@ -669,9 +716,4 @@ Theorem bridge_nolink_lookup (s : fsys) (sv : sview) (cs : list str) (slm : slmo
   length cs < SEARCH_FUEL ->
   walk_rel (f_heap s) (v_user v) (v_root v) (precise_of slm)
     (search_node s v (abs_path cs) slm) (klookup s sv false follow (abs_path cs)).
-Proof.
-  intros v Hos Hg Hlf Hd Hlen. rewrite (search_node_abs_path s v cs slm Hos Hg), (klookup_abs_path s sv false follow cs Hg).
-  apply bridge_nolink; auto.
-  - unfold SEARCH_FUEL, WALK_FUEL in *. lia.
-  - destruct cs; [right; reflexivity|left; reflexivity].
-Qed.
+Proof. intros v H1 H2 H3 H4 H5. apply walk_relx_rel. apply bridge_nolink_lookup_x; assumption. Qed.
